@@ -112,6 +112,10 @@ def run(ctx, rep) -> None:
     from .c04 import _change_guards
 
     rep.attempt("_change_guards", _change_guards, ctx, rep, "C08.3")
+    from .c04 import global_selector_is_ownership_independent, selector_construction
+
+    rep.attempt("selector_construction", selector_construction, ctx, rep, "C08.3")
+    rep.attempt("global_selector_is_ownership_independent", global_selector_is_ownership_independent, ctx, rep, "C08.3")
     from .c04 import stateful_cursors_advance
 
     rep.attempt("stateful_cursors_advance", stateful_cursors_advance, ctx, rep, "C08.3")
